@@ -4,6 +4,7 @@ import QR.Proofs.Svg
 import QR.Proofs.SourceTieC13
 import QR.Proofs.Pinned
 import QR.Proofs.Units
+import QR.Proofs.SourceTieB6
 /-
 C13 - SVG factories: each factory draws exactly one correctly placed shape per dark module and none for light modules,
 each shape centred on its module's cell and not larger than the cell.
@@ -77,6 +78,94 @@ example : Spec.shapesOK [[true]] 1 0 1
 /-- `BaseImage.is_eye` as it stands in the source is the model's `isEye` -/
 theorem C13_source_is_eye (width row col : Nat) : Gen.Code.is_eye width row col = isEye width row col :=
   QR.SourceTie.isEye_eq width row col
+
+
+/-! ### Source tie, part 2 (T2 plugins `tools/t2_fragments/`): the hand-written Model equals the definitions translated from
+    /repo's current Python AST (`QR.Gen.Code`, regenerated on every run). Restated verbatim from `QR/Proofs/SourceTie*.lean`. -/
+section SourceTieT2
+open QR.Model QR.Gen.Code QR.SourceTieB
+
+theorem C13_source_units_literals :
+    units_text_default = true ∧ units_divisor = 10 ∧ units_quantum_decimals = 3 ∧ units_rounding = "ROUND_HALF_EVEN" ∧
+    units_cascade_traps = ["decimal.Inexact"] ∧ units_cascade_except = "decimal.Inexact" ∧
+    units_cascade_decimals = [2, 1, 0] ∧ units_suffix = "mm" ∧ (∀ t, units_raw_test t = !t) :=
+  QR.SourceTieB.units_literals
+
+/-- the model's printer is the source's cascade: quantum and cascade steps as they stand in the source -/
+theorem C13_source_fmtThousandths_src (t : Nat) :
+    fmtThousandths t = fmtScaled (cascade t units_quantum_decimals units_cascade_decimals).1
+                                 (cascade t units_quantum_decimals units_cascade_decimals).2 :=
+  QR.SourceTieB.fmtThousandths_src t
+
+/-- `units(pixels)` for `pixels = num / den`: `Decimal(pixels) / 10` quantised to `units_quantum_decimals` decimals
+    (half-even: `units_rounding`), printed through the cascade, followed by the suffix -/
+theorem C13_source_units_src (num den : Nat) :
+    units num den =
+      (let t := roundHalfEven (10 ^ units_quantum_decimals / units_divisor * num) den
+       let c := cascade t units_quantum_decimals units_cascade_decimals
+       fmtScaled c.1 c.2 ++ units_suffix) :=
+  QR.SourceTieB.units_src num den
+
+theorem C13_source_svgRoot_literals :
+    svg_root_attrs = [("width", "dimension"), ("height", "dimension"), ("version", "version")] ∧
+    svg_viewbox_format = "0 0 {d} {d}" ∧ svg_background_test = "self.background" ∧ svg_background_tag = "rect" ∧
+    svg_background_attrs = [("fill", "<self.background>"), ("x", "0"), ("y", "0"), ("width", "100%"), ("height", "100%")] :=
+  QR.SourceTieB.svgRoot_literals
+
+/-- which factory draws the background rectangle: the class attribute `background` resolved along the class hierarchy -/
+theorem C13_source_hasBackground_src (f : SvgFactory) : svg_has_background.lookup (factoryName f) = some f.hasBackground :=
+  QR.SourceTieB.hasBackground_src f
+
+/-- the document: `width` / `height` (and the path factories' viewBox) are `units` of `pixel_size`; the pixel box handed to the
+    drawer is `pixel_box(row, col)[0]`; the eye test is `is_eye` -/
+theorem C13_source_svgDoc_src (f : SvgFactory) (md ed : SvgDrawer) (M : Mods) (width border boxSize : Nat) :
+    svgDoc f md ed M width border boxSize =
+      { pixelSize := svg_dimension_arg (pixel_size border width boxSize)
+        viewBox := f.isPath
+        background := f.hasBackground
+        shapes := (List.range width).flatMap fun r => (List.range width).filterMap fun c =>
+          if (M.getD r []).getD c false then
+            let d := if is_eye width r c then ed else md
+            let box := pixel_box border boxSize r c
+            some (2 * d.den, drawShape f.isPath d boxSize box.1.1 box.1.2)
+          else none } :=
+  QR.SourceTieB.svgDoc_src f md ed M width border boxSize
+
+/-- `initialize()`: `box_delta = (1 - size_ratio) * img.box_size / 2`, `box_size = img.box_size * size_ratio`,
+    `box_half = box_size / 2`, for `size_ratio = num / den ≤ 1`.  The translated value is `numerator / divisor` in units of
+    1/den pixel; the model's is in units of 1/(2 den) pixel: `model * divisor = 2 * numerator`. -/
+theorem C13_source_drawerMetrics_src (d : SvgDrawer) (b : Nat) :
+    (d.den - d.num) * b * (svg_box_delta d.num d.den b).2 = 2 * (svg_box_delta d.num d.den b).1 ∧
+    2 * d.num * b * (svg_box_size d.num d.den b).2 = 2 * (svg_box_size d.num d.den b).1 ∧
+    d.num * b * (svg_box_half d.num d.den b).2 = 2 * (svg_box_half d.num d.den b).1 :=
+  QR.SourceTieB.drawerMetrics_src d b
+
+theorem C13_source_svgDrawer_literals :
+    svg_coords_fields = ["x0", "y0", "x1", "y1", "xh", "yh"] ∧
+    svg_square_tag = "rect" ∧ svg_square_attrs = ["x", "y", "width", "height"] ∧
+    svg_circle_tag = "circle" ∧ svg_circle_attrs = ["cx", "cy", "r"] ∧
+    svg_path_square_template = ["M", "{x0}", ",", "{y0}", "H", "{x1}", "V", "{y1}", "H", "{x0}", "z"] ∧
+    svg_path_circle_template = ["M", "{x0}", ",", "{yh}", "A", "{h}", ",", "{h}", " 0 0 0 ", "{x1}", ",", "{yh}",
+      "A", "{h}", ",", "{h}", " 0 0 0 ", "{x0}", ",", "{yh}", "z"] :=
+  QR.SourceTieB.svgDrawer_literals
+
+/-- the shape a drawer emits for the pixel box starting at (X, Y): `coords()` as translated, and for each drawer class the
+    coordinates it passes to `units` for each attribute (`x`/`y`/`width`/`height`, `cx`/`cy`/`r`) or path variable -/
+theorem C13_source_drawShape_src (isPath : Bool) (d : SvgDrawer) (b X Y : Nat) :
+    some (drawShape isPath d b X Y) =
+      (let D := 2 * d.den
+       let delta := (d.den - d.num) * b
+       let size := 2 * d.num * b
+       let half := d.num * b
+       let c := svg_coords (X * D) (Y * D) delta size half
+       match isPath, d.kind with
+       | false, .square => rectOf (svg_square_el c.1 c.2.1 c.2.2.1 c.2.2.2.1 c.2.2.2.2.1 c.2.2.2.2.2 delta size half)
+       | false, .circle => circleOf (svg_circle_el c.1 c.2.1 c.2.2.1 c.2.2.2.1 c.2.2.2.2.1 c.2.2.2.2.2 delta size half)
+       | true, .square => pathSquareOf (svg_path_square_vars c.1 c.2.1 c.2.2.1 c.2.2.2.1 c.2.2.2.2.1 c.2.2.2.2.2 delta size half)
+       | true, .circle => pathCircleOf (svg_path_circle_vars c.1 c.2.1 c.2.2.1 c.2.2.2.1 c.2.2.2.2.1 c.2.2.2.2.2 delta size half)) :=
+  QR.SourceTieB.drawShape_src isPath d b X Y
+
+end SourceTieT2
 
 /-- the Python functions this property's model mirrors have, in /repo's current working tree, exactly the normalised
     ASTs the model was written and validated against (fingerprints regenerated by T1 on every run) -/
